@@ -431,3 +431,15 @@ def _subst(e, key, val):
     if k == "agg":
         return ("agg", e[1], e[2], tuple((n, _subst(v, key, val)) for n, v in e[3]))
     return e
+
+
+def derived_frame_writers(facts):
+    """in-crate functions that encode a header and write it themselves (`w.write_all(&header.encode())`): frame writers, whatever
+    they are called and wherever they live (a free function that became a method of a small struct is still the frame writer)"""
+    out = set()
+    for cb, ci, ct in facts.calls_to("header::Header::encode"):
+        if "{inl#" in cb.path:
+            continue
+        if any(t["callee"]["name"] in ("write_all", "write", "write_vectored") for _, t in cb.calls()):
+            out.add(cb.path[:-len("::{closure#0}")] if cb.path.endswith("::{closure#0}") else cb.path)
+    return out
